@@ -666,8 +666,11 @@ def main():
             continue
         undecided += cl["undecided"]
         for o in cl["obligations"]:
-            if prop == "C04" and not o.get("implicit"):
-                continue  # C04 is panic-freedom: only the implicit no_panic obligation of each unit belongs to it
+            if prop == "C04" and not o.get("implicit") and not o["id"].startswith("C07."):
+                # C04 is crash-freedom: the implicit no_panic obligation of each unit belongs to it, plus the named
+                # depth-accounting obligations (C07.*) of the decoder units -- the nesting limits are what bounds the
+                # native recursion depth on hostile input (stack overflow clause)
+                continue
             rec = {"id": o["id"], "unit": u.id, "harness": u.harness, "functions": u.fns, "kind": u.kind,
                    "bound": u.bound, "backend": "kani/cbmc", "status": o["status"], "harness_seconds": r.get("time"),
                    "cbmc_checks_in_harness": cl["n_checks"]}
